@@ -227,6 +227,10 @@ def families(tier, seed=0):
     rng = random.Random(seed * 7919 + 13)
     fs += fam_random_arith("b", "bit", 25 if tier == "quick" else 300, rng)
     fs += fam_random_arith("i32", "ring", 10 if tier == "quick" else 150, rng)
+    # random programs over all MPC-compilable operations on bits (containers, linear algebra, structural operations)
+    from . import randprog
+    for name, p, its in randprog.programs(seed + 5, 30 if tier == "quick" else 400, sts=("b",)):
+        fs.append((name, p, len(its), "bit"))
     if tier == "thorough":
         fs += fam_binary("u8", "ring", shapes=((), (2,)))
         fs += fam_linear("i16", "ring")
